@@ -681,8 +681,8 @@ class Unflatten:
             return t
         if t[0] == "for" and self.has_free_fill(t[3]):
             return t
-        if t[0] == "fill" and t[1][0] != "str":
-            return t
+        if t[0] == "fill" and (t[1][0] != "str" or t[3]):
+            return t       # dynamic name, or the `default` alias: the fill can be rendered inside the slot's own default content
         return map_bodies(t, lambda b: self.walk(b, level))
 
     def junk(self):
@@ -751,7 +751,7 @@ class Unflatten:
 
     def opaque(self, seg):
         """segment that must stay as it is (see descend)"""
-        return any((t[0] == "for" and self.has_free_fill(t[3])) or (t[0] == "fill" and t[1][0] != "str")
+        return any((t[0] == "for" and self.has_free_fill(t[3])) or (t[0] == "fill" and (t[1][0] != "str" or t[3]))
                    or (t[0] == "slot" and self.skip_slot_bodies) or (t[0] == "comp" and self.skip_comp_bodies) for t in seg)
 
     def include(self, seg):
